@@ -53,7 +53,7 @@ def emitTag (t : Tag) (selfClose : Bool) : Tok :=
 
 /-- the references the serialiser emits: body (between '&' and ';') ↦ character -/
 def refTable : List (Str × Char) :=
-  [(['a','m','p'], '&'), (['l','t'], '<'), (['g','t'], '>'), (['#','3','4'], '"'), (['#','3','9'], '\'')]
+  [(['a','m','p'], '&'), (['l','t'], '<'), (['g','t'], '>'), (['#','3','4'], '"'), (['#','3','9'], '\''), (['#','1','3'], '\r')]
 
 def isRefPrefix (acc : Str) : Bool := refTable.any (fun e => hasPrefix e.1 acc)
 
